@@ -9,4 +9,5 @@ CONSTANTS
   IgnoreSize = FALSE
   Emit = FALSE
 INVARIANTS Injective
+ALIAS Shown
 CHECK_DEADLOCK FALSE
